@@ -172,7 +172,7 @@ func (op _OpContextType) decodeInst(x uint32) (as abi.As, arg *abi.AsArgument, a
 		arg.Rs2 = op.decodeRegI(rk)
 		return
 	case OpFormatType_3R_sa2:
-		imm := int32(uimm(x, 10, 2))
+		imm := int32(uimm(x, 15, 2)) // sa2: bits 16:15
 		argRaw.Rd = rd
 		argRaw.Rs1 = rj
 		argRaw.Rs2 = rk
@@ -183,7 +183,7 @@ func (op _OpContextType) decodeInst(x uint32) (as abi.As, arg *abi.AsArgument, a
 		arg.Imm = imm
 		return
 	case OpFormatType_3R_sa3:
-		imm := int32(uimm(x, 10, 3))
+		imm := int32(uimm(x, 15, 3)) // sa3: bits 17:15
 		argRaw.Rd = rd
 		argRaw.Rs1 = rj
 		argRaw.Rs2 = rk
